@@ -32,6 +32,16 @@ import (
 // a hang together with what the back-end recorder saw.
 var CallTimeout = 10 * time.Second
 
+// timeoutOf is the watchdog of one script: full-duplex scripts move megabytes
+// through gzip in both directions (slow under the race detector and 48
+// workers) and get a wider one.
+func timeoutOf(s *Script) time.Duration {
+	if s.Duplex {
+		return 4 * CallTimeout
+	}
+	return CallTimeout
+}
+
 // Env is the running infrastructure: scripted back-end, larking front.
 type Env struct {
 	Reg   *Registry
@@ -156,14 +166,15 @@ func (e *Env) Exec(s *Script) *Result {
 	// direct execution
 	did := e.callID("d")
 	drec := e.Reg.New(did)
-	dctx, dcancel := context.WithTimeout(context.Background(), CallTimeout)
+	callTimeout := timeoutOf(s)
+	dctx, dcancel := context.WithTimeout(context.Background(), callTimeout)
 	t0 := time.Now()
 	res.DirectC = runGRPC(dctx, e.Back.Direct, s, did)
 	dcancel()
 	res.DirectT = time.Since(t0).Round(time.Microsecond).String()
 	res.DirectB = collect(drec, 3*time.Second)
 	e.Reg.Forget(did)
-	if res.DirectC.TimedOut || res.DirectC.TransportErr != "" || time.Since(t0) > CallTimeout/2 {
+	if res.DirectC.TimedOut || res.DirectC.TransportErr != "" || time.Since(t0) > callTimeout/2 {
 		res.Incon = fmt.Sprintf("direct execution did not complete normally (%+v): harness/script problem, nothing to compare", res.DirectC)
 		return res
 	}
@@ -181,7 +192,7 @@ func (e *Env) Exec(s *Script) *Result {
 	// proxied execution
 	pid := e.callID("p")
 	prec := e.Reg.New(pid)
-	pctx, pcancel := context.WithTimeout(context.Background(), CallTimeout)
+	pctx, pcancel := context.WithTimeout(context.Background(), callTimeout)
 	finished := make(chan struct{})
 	var dump string
 	var hungState BackT
@@ -194,7 +205,7 @@ func (e *Env) Exec(s *Script) *Result {
 		defer wg.Done()
 		select {
 		case <-finished:
-		case <-time.After(CallTimeout - 1500*time.Millisecond):
+		case <-time.After(callTimeout - 1500*time.Millisecond):
 			hungState = collect(prec, 0)
 			if e.WantDump.Load() {
 				buf := make([]byte, 4<<20)
@@ -209,10 +220,12 @@ func (e *Env) Exec(s *Script) *Result {
 		// read the whole request): bidi scripts, whose back-end may reply
 		// while messages are outstanding, go over h2c.
 		hc := e.HC
-		if s.Shape == "bidi" || hasThink(s.Client) {
+		if s.Shape == "bidi" || streamed(s) {
 			hc = e.H2
 		}
 		res.ProxyC = runHTTP(pctx, hc, e.Front.URL, s, pid)
+	} else if s.Front == "web" {
+		res.ProxyC = runWeb(pctx, e.H2, e.Front.URL, s, pid)
 	} else {
 		res.ProxyC = runGRPC(pctx, e.CC, s, pid)
 	}
@@ -227,7 +240,7 @@ func (e *Env) Exec(s *Script) *Result {
 	// The deadline travels to larking (grpc-timeout), whose own timer may
 	// fire a moment before the client's: a call that used up the whole
 	// budget timed out, whoever noticed first.
-	if elapsed >= CallTimeout-time.Second {
+	if elapsed >= callTimeout-time.Second {
 		res.ProxyC.TimedOut = true
 	}
 
@@ -238,7 +251,7 @@ func (e *Env) Exec(s *Script) *Result {
 			state = hungState.Inv[0].State
 		}
 		res.Diffs = append(res.Diffs, Diff{"hang", "backend-" + state,
-			fmt.Sprintf("proxied call still pending at the %s deadline (direct call took %s); back-end recorder: %s", CallTimeout, res.DirectT, invSummary(hungState))})
+			fmt.Sprintf("proxied call still pending at the %s deadline (direct call took %s); back-end recorder: %s", callTimeout, res.DirectT, invSummary(hungState))})
 		return res
 	}
 	if res.ProxyC.TransportErr != "" {
@@ -296,10 +309,14 @@ func msgClass(s *Script) string { return "msg=" + s.Final.MsgC }
 func detClass(s *Script) string { return fmt.Sprintf("details=%d", s.Final.Det) }
 
 func nClass(s *Script) string {
+	c := s.Fam
 	if s.NMsg == 0 {
-		return s.Fam + ",n=0"
+		c += ",n=0"
 	}
-	return s.Fam
+	if s.Gzip {
+		c += ",gzip"
+	}
+	return c
 }
 
 // compare lists the observables on which the proxied execution differs from
@@ -332,7 +349,22 @@ func compare(s *Script, r *Result) []Diff {
 	}
 	dc, pc := r.DirectC, r.ProxyC
 	if !reflect.DeepEqual(dc.Responses, pc.Responses) {
-		add("responses", nClass(s), "response messages: proxied %v direct %v", pc.Responses, dc.Responses)
+		if len(dc.Responses)+len(pc.Responses) > 12 {
+			i := 0
+			for i < len(dc.Responses) && i < len(pc.Responses) && dc.Responses[i] == pc.Responses[i] {
+				i++
+			}
+			at := func(l []string) string {
+				if i < len(l) {
+					return l[i]
+				}
+				return "(none)"
+			}
+			add("responses", nClass(s), "response messages: %d through larking, %d directly; first difference at #%d: proxied %s direct %s (proxied status %s %q)",
+				len(pc.Responses), len(dc.Responses), i, at(pc.Responses), at(dc.Responses), codes.Code(pc.Code), pc.Msg)
+		} else {
+			add("responses", nClass(s), "response messages: proxied %v direct %v", pc.Responses, dc.Responses)
+		}
 	}
 	if s.Front == "http" {
 		if pc.BodyErr != "" {
@@ -372,6 +404,10 @@ func compare(s *Script, r *Result) []Diff {
 		}
 		return ds
 	}
+	if pc.BodyErr != "" {
+		add("web-body", nClass(s), "%s", pc.BodyErr)
+		return ds
+	}
 	if pc.Code != dc.Code {
 		add("status-code", nClass(s), "final status code %s (%q), directly %s (%q)", codes.Code(pc.Code), pc.Msg, codes.Code(dc.Code), dc.Msg)
 	} else {
@@ -397,7 +433,7 @@ func shapeKey(s *Script, r *Result) string {
 	if len(r.DirectB.Inv) == 1 {
 		hc = fmt.Sprint(r.DirectB.Inv[0].EOFAfter >= 0)
 	}
-	return fmt.Sprintf("%s/%s/%s/n=%d/%s/halfclose-seen=%s/md=%s", s.Front, s.Shape, s.Fam, s.NMsg, out, hc, s.MDClass)
+	return fmt.Sprintf("%s/%s/%s/n=%d/%s/halfclose-seen=%s/md=%s/gzip=%v", s.Front, s.Shape, s.Fam, s.NMsg, out, hc, s.MDClass, s.Gzip)
 }
 
 func report(r *mon.Run, res *Result) {
@@ -531,7 +567,19 @@ func RunC10(r *mon.Run) {
 	hangs := map[string][]*Result{} // by finding key
 	var hangKeys []string
 	var incon []*Result
-	execAll(e, cases, 48, func(res *Result) {
+	// Full-duplex scripts are CPU-heavy (megabytes through gzip in both
+	// directions, under the race detector): they run after the others on few
+	// workers so that their duration says something about the call and not
+	// about the load.
+	var light, heavy []*Script
+	for _, s := range cases {
+		if s.Duplex {
+			heavy = append(heavy, s)
+		} else {
+			light = append(light, s)
+		}
+	}
+	sink := func(res *Result) {
 		switch {
 		case res.Incon != "":
 			mu.Lock()
@@ -548,7 +596,9 @@ func RunC10(r *mon.Run) {
 		default:
 			report(r, res)
 		}
-	})
+	}
+	execAll(e, light, 48, sink)
+	execAll(e, heavy, 12, sink)
 
 	// phase 2a: scripts that were inconclusive once
 	if len(incon) > 200 {
